@@ -66,7 +66,7 @@ def is_cfg_only_cfg_attr(a):
     if tok.attr_path(a) != "cfg_attr" or len(a) != 2 or not tok.is_g(a[1], "("):
         return False
     parts = tok.split_commas(a[1]["s"])
-    return len(parts) >= 2 and all(len(p_) == 2 and tok.is_i(p_[0], "cfg") and tok.is_g(p_[1], "(") for p_ in parts[1:])
+    return len(parts) >= 2 and all(len(p_) == 2 and tok.is_g(p_[1], "(") and (tok.is_i(p_[0], "cfg") or is_cfg_only_cfg_attr(p_)) for p_ in parts[1:])
 
 
 def check_generated_attrs(c, r, rep, allow_cfg_mirror):
@@ -116,7 +116,8 @@ def fn_case(cid, rng, mode):
             pre = rng.choice(["", "", "/// docs first\n    ", "#[inline]\n    ", "#[allow(unused)] #[doc(hidden)]\n    "])
             post = rng.choice(["", "", " #[inline]", " #[cfg(all())]"])
             # (the predicate may also reach the fn through a `cfg_attr`)
-            gate = rng.choice(["#[cfg(any())]", "#[cfg(any())]", "#[cfg_attr(all(), cfg(any()))]", "#[cfg_attr(not(any()), allow(unused), cfg(not(all())))]"])
+            gate = rng.choice(["#[cfg(any())]", "#[cfg(any())]", "#[cfg_attr(all(), cfg(any()))]", "#[cfg_attr(not(any()), allow(unused), cfg(not(all())))]",
+                               "#[cfg_attr(all(), cfg_attr(all(), cfg(any())))]", "#[cfg_attr(true, cfg(false))]", "#[cfg_attr(true, inline, cfg_attr(not(false), cfg(any())))]"])
             body.insert(rng.randint(0, len(body)), "    %s%s%s pub fn gone<D>(deps: &D, x: i32) -> i32 { this_does_not_exist(x) }" % (pre, gate, post))
             cfg_gone.append("gone")
         if rng.random() < 0.7 and not any(f.type_params or f.const_params for f in b.fns):
